@@ -100,6 +100,12 @@ func decompress(encoding string, r io.Reader) (io.Reader, error) {
 func CompressRequest(request *http.Request, acceptEncoding string) error {
 	encoding := selectEncoding(acceptEncoding)
 	if encoding == "" {
+		// The stream is sent as it is, but as below nothing may read it any
+		// more once the request has terminated: the transport can still be
+		// sending the body of a request that was answered early.
+		if request.Body != nil && request.Body != http.NoBody {
+			request.Body = &readBlocker{Reader: request.Body}
+		}
 		return nil
 	}
 	plain := &readBlocker{Reader: request.Body}
